@@ -148,3 +148,19 @@ subroutine k1(x, r)
 end subroutine
 end module
 """, ArgumentArrayShapeAnalysis(), ExplicitArgumentArrayShapeTransformation())
+
+run('C34 shape: call sites with different extents: the shape of the FIRST call is made explicit (x(3)), the second call passes 4 elements', """module m
+contains
+subroutine drv(a, r)
+  integer, intent(inout) :: a(2, 3, 4)
+  integer, intent(out) :: r
+  call k1(a(1, :, 2), r)
+  call k1(a(1, 1, :), r)
+end subroutine
+subroutine k1(x, r)
+  integer, intent(inout) :: x(:)
+  integer, intent(out) :: r
+  r = size(x)
+end subroutine
+end module
+""", ArgumentArrayShapeAnalysis(), ExplicitArgumentArrayShapeTransformation())
